@@ -260,8 +260,8 @@ def run_c19(prog, job):
                     run_builder('single', mk(fields, url=NONE, connection=some(ci2), pool=PC), ('connection only', [ci2]))
     # cluster
     cf = W.structs[('redis/src/cluster/config.rs', 'Config')]
-    for n in (0, 1, 2):
-        urls = [S(W.fresh_str('url')) for _ in range(n)]; cis = [W.conn_info(v, True, False, 'RESP2') for v in ('Tcp', 'Unix')[:n]]
+    for n in ((0, 1, 2) if job.get('tier') != 'thorough' else (0, 1, 2, 3)):
+        urls = [S(W.fresh_str('url')) for _ in range(n)]; cis = [W.conn_info(v, True, False, 'RESP2') for v in ('Tcp', 'Unix', 'TcpTls')[:n]]
         for rfr in (False, True):
             run_builder('cluster', mk(cf, urls=some(Agg('Vec', urls)), connections=NONE, pool=PC, read_from_replicas=rfr), (f'{n} urls', [Agg('Vec', [sref(u.f[0]) for u in urls]), rfr]))
             run_builder('cluster', mk(cf, urls=NONE, connections=some(Agg('Vec', cis)), pool=PC, read_from_replicas=rfr), (f'{n} connections', [Agg('Vec', cis), rfr]))
